@@ -103,11 +103,30 @@ class Ref:
             F[s:s + sz] += coef * (prow @ y + o) ** 2
         return F
 
+    def polish(self, y0):
+        """Newton from y0 to the nearest root (quadratic worlds have several)."""
+        I = np.eye(self.N)
+        b = self.b()
+        y = np.array(y0, dtype=float)
+        for _ in range(8):
+            F = self.residual(y, b)
+            Jq = np.zeros((self.N, self.N))
+            for s, sz, coef, prow, o in self.quads:
+                Jq[s:s + sz] += np.outer(2 * coef * (prow @ y + o), prow)
+            y = y + np.linalg.solve(I - self.M - Jq, F)
+        return y
+
     def solve(self):
         """Fixed point by sweeps in logical order from y = b (what a run-once / Gauss-Seidel pass
         does), polished by Newton.  Sets self.converged."""
         I = np.eye(self.N)
         b = self.b()
+        anchor = getattr(self, 'anchor', None)
+        if anchor is not None and self.quads:
+            key = tuple(np.concatenate([v for k, v in sorted(self.indep.items())]).tolist())
+            if key == anchor[0]:
+                self.y, self.converged = anchor[1], True
+                return self.y
         if not self.quads:
             y = np.linalg.solve(I - self.M, b)
             r = b - (I - self.M) @ y
@@ -191,3 +210,32 @@ class Ref:
 
     def cond(self):
         return float(np.linalg.cond(np.eye(self.N) - self.M))
+
+    def lin_operator(self, y=None):
+        """OpenMDAO's linear operator dR/dy over all outputs in physical units: explicit outputs carry
+        -1 on the diagonal (dR = -dy + A dx), implicit states R = D u - A x - b, independents -I."""
+        y = self.y if y is None else y
+        N = self.N
+        L = -np.eye(N)
+        for c in self.world['comps']:
+            if c['kind'] == 'ivc':
+                continue
+            for o in c['outs']:
+                s, sz = self.off[o['name']]
+                AP = np.zeros((sz, N))
+                for i in c['ins']:
+                    A = np.array(c['A'][o['name']][i['name']], dtype=float)
+                    P, off = self.inmaps[i['name']]
+                    AP += A @ P
+                q = c.get('quad')
+                if q and q['out'] == o['name']:
+                    P, off = self.inmaps[q['in']]
+                    x0 = P[0] @ y + off[0]
+                    AP += np.outer(2 * np.array(q['coef']) * x0, P[0])
+                if c['kind'] == 'imp':
+                    L[s:s + sz] = -AP
+                    L[s:s + sz, s:s + sz] += np.array(c['D'], dtype=float)
+                else:
+                    L[s:s + sz] = AP
+                    L[s:s + sz, s:s + sz] -= np.eye(sz)
+        return L
